@@ -100,7 +100,8 @@ type item struct {
 	static bool      // every condition that does not depend on later chain growth holds
 	confH  int64     // lunatic shapes: height and time of the conflicting block
 	confT  time.Time // "
-	forged bool      // carries a signature that the alleged signer never made
+	forged bool      // carries a signature that the alleged signer never made, and accuses that signer
+	gray   bool      // ground truth is debatable: any verdict is tolerated
 }
 
 type crashPanic struct{}
@@ -672,6 +673,7 @@ func (s *sim) buildLCA(r simcore.Op) *item {
 		sigOK = false
 	}
 	var commit *types.Commit
+	var forgedAddr []byte
 	if p == "identical" {
 		commit = s.chain.Commits[c]
 		signer = map[string]bool{}
@@ -723,7 +725,11 @@ func (s *sim) buildLCA(r simcore.Op) *item {
 				}
 			}
 			commit.Signatures[at].Signature = detBytes(64, "bogus", r.Int("cs"), at)
-			sigOK = false
+			forgedAddr = conf.Validators[at].Address
+			signerPower -= conf.Validators[at].VotingPower // only genuine signatures prove anything
+			if _, cv := common.GetByAddress(forgedAddr); cv != nil && (sh == "lun" || sh == "fwd") {
+				coalPower -= cv.VotingPower
+			}
 		}
 		if p == "commit_blockid" {
 			commit.BlockID.Hash = detBytes(32, "otherblock", r.Int("cs"))
@@ -839,8 +845,22 @@ func (s *sim) buildLCA(r simcore.Op) *item {
 	if p == "identical" {
 		valid = false
 	}
-	kind := sh
-	return &item{ev: ev, kind: kind, pert: p, evH: ev.CommonHeight, static: valid, confH: ch, confT: hdr.Time, forged: p == "bad_sig"}
+	// a signature its alleged signer never made: the evidence is false testimony when it accuses
+	// that signer; when it does not (amnesia names nobody, a made-up key is not in the common
+	// set) and the genuine signatures alone still carry the proof, either verdict is tolerated
+	accusesForged := false
+	for _, b := range claimed {
+		accusesForged = accusesForged || (forgedAddr != nil && bytes.Equal(b.Address, forgedAddr))
+	}
+	gray := false
+	if forgedAddr != nil {
+		if accusesForged {
+			valid = false
+		} else if valid {
+			gray = true
+		}
+	}
+	return &item{ev: ev, kind: sh, pert: p, evH: ev.CommonHeight, static: valid, gray: gray, confH: ch, confT: hdr.Time, forged: accusesForged}
 }
 
 // getItem returns the evidence a recipe describes, building it on first use.
@@ -894,6 +914,9 @@ const (
 func (s *sim) validity(it *item) int {
 	if !it.static {
 		return invalid
+	}
+	if it.gray {
+		return dontcare
 	}
 	if it.kind == "lun" || it.kind == "fwd" {
 		H := s.H()
